@@ -1,7 +1,7 @@
 """C16 — the C and C++ wrappers are transparent."""
 from .. import astq, facts, norm, run
 from ..astq import sc
-from ..rules import fwd
+from ..rules import fwd, pure
 from ..tu import AnalysisBroken
 
 # wrapper -> (World member, index of the handle parameter, index of the out-parameter, element-wise result)
@@ -158,6 +158,10 @@ def main(tier):
         rep.ok(rule2, "~WorldBuilderWrapper deletes ptr_ptr_world as World*", D.nloc(dels[0]), D.qn)
     else:
         rep.violation(rule2, "~WorldBuilderWrapper", D.loc, D.qn, "", "does not delete exactly the stored world", key=rule2 + "|dtor")
+    # the wrappers add no state of their own: effect analysis rooted at the wrapper query functions (out-parameters allowed)
+    wroots = [P.func(nm) for nm in C_API] + [f for (nm, npar) in CPP_API for f in P.funcs_named("wrapper_cpp::WorldBuilderWrapper::" + nm) if len(f.params) == npar]
+    allow = {(P.func(nm).qn, o) for nm, (_, _, o, _) in C_API.items() if o is not None}
+    pure.run(P, rep, wroots, rule="PURE.wrappers", allow_param_writes=allow)
     rep.explanation = ("Forwarding analysis of the 10 extern \"C\" functions and the 8 members of WorldBuilderWrapper: callee, "
                        "argument provenance (identity forms of the wrapper's parameters in declared order), result path, "
                        "handle round trip and new/delete pairing.")
